@@ -83,7 +83,7 @@ def ensure_built():
         if not os.path.exists(c) or os.path.getmtime(c) < os.path.getmtime(s):
             stale = True
     if stale:
-        r = subprocess.run(["javac", "-cp", JAR, "-d", SPEC] + srcs,
+        r = subprocess.run(UNLIMIT + ["javac", "-cp", JAR, "-d", SPEC] + srcs,
                            capture_output=True, text=True)
         if r.returncode != 0:
             raise MachineryError("javac failed: " + r.stderr)
@@ -97,7 +97,7 @@ def ensure_built():
 
 # ---------------------------------------------------------------- TLC
 def tlc_cmd(metadir, args, heap=None, gcthreads=None):
-    cmd = ["java", "-XX:+UseParallelGC", "-Xss1g"]
+    cmd = UNLIMIT + ["java", "-XX:+UseParallelGC", "-Xss1g"]
     if heap:
         cmd.append("-Xmx" + heap)
     if gcthreads:
@@ -108,6 +108,8 @@ def tlc_cmd(metadir, args, heap=None, gcthreads=None):
     return cmd
 
 
+# the harness process runs under a soft address-space limit (main.limit_memory); JVMs need the address space back
+UNLIMIT = ["sh", "-c", 'ulimit -S -v unlimited 2>/dev/null; exec "$@"', "sh"]
 _STATS = re.compile(r"(\d+) states generated, (\d+) distinct states found, (\d+) states left")
 _DEPTH = re.compile(r"The depth of the complete state graph search is (\d+)")
 
@@ -400,8 +402,10 @@ def call(fn, *a, **kw):
     try:
         return "ret", fn(*a, **kw)
     except BaseException as e:  # noqa - we want *every* exception type recorded
-        if isinstance(e, (KeyboardInterrupt, SystemExit, MemoryError)):
+        if isinstance(e, (KeyboardInterrupt, SystemExit)):
             raise
+        # MemoryError is an outcome like any other: the process runs under a soft address-space limit
+        # (main.limit_memory), so a library call that allocates without bound fails here and is judged by the specification
         return "exc", e
 
 
